@@ -1094,7 +1094,19 @@ func (b *txBuffer) flush(ser old_faithful_grpc.OldFaithful_StreamTransactionsSer
 	}
 	klog.V(2).Infof("Flushing buffer with %d slots containing %d total transactions", len(b.items), totalTxs)
 
-	for b.currentSlot <= b.endSlot {
+	// Walk the slots that actually have transactions, in ascending order (walking every slot
+	// number up to endSlot never ends for a range like [x, 2^64-1]).
+	slots := make([]uint64, 0, len(b.items))
+	for slot := range b.items {
+		if slot >= b.currentSlot && slot <= b.endSlot {
+			slots = append(slots, slot)
+		}
+	}
+	sort.Slice(slots, func(i, j int) bool {
+		return slots[i] < slots[j]
+	})
+	for _, slot := range slots {
+		b.currentSlot = slot
 		// Send all transactions for this slot in index order
 		if txMap, exists := b.items[b.currentSlot]; exists {
 			// Get all indices and sort them
@@ -1128,7 +1140,6 @@ func (b *txBuffer) flush(ser old_faithful_grpc.OldFaithful_StreamTransactionsSer
 
 		// Clean up processed slot
 		delete(b.items, b.currentSlot)
-		b.currentSlot++
 	}
 	return nil
 }
